@@ -58,6 +58,11 @@ def gen_leaf(rng, nq, n_entries, classes=None, p_rel=0.40, p_dangling=0.05, reg_
     elif cls in MULTI_Q:
         k = rng.randint(1, nq)
         c['q'] = sorted(rng.sample(range(nq), k))
+        r = rng.random()
+        if r < 0.25:
+            rng.shuffle(c['q'])                       # a qubit list in arbitrary order
+        elif r < 0.33:
+            c['q'] = c['q'] + [rng.choice(c['q'])]     # ... or naming a qubit twice
     else:
         c['q'] = [rng.randrange(nq)]
     if cls in PARAM_DUR:
